@@ -163,19 +163,19 @@ theorem compact_rm_old {L : Levels} {c : Compactor} {o : Oracle} {cs : ChangeSet
     cases List.mem_append.mp ht with
     | inl h => exact getD_mem_flatten h
     | inr h => exact getD_mem_flatten h
-  unfold compact at h
+  unfold compact compactWith at h
   split at h
   · simp at h
   · split at h
     · simp only [Prod.mk.injEq, Option.some.injEq] at h
       rw [← h.1]
-      unfold majorCompaction
+      unfold majorCompactionWith
       simp only
       apply hmap
       intro t ht
       cases List.mem_append.mp ht with
       | inl hp =>
-        obtain ⟨l, hl, htl⟩ := majorPick_sub _ _ _ t hp
+        obtain ⟨l, hl, htl⟩ := majorPickWith_sub sortByAge sortByAge_perm _ _ _ t hp
         exact List.mem_flatten.mpr ⟨l, List.dropLast_subset L (List.mem_reverse.mp hl), htl⟩
       | inr hb => rw [getLastD_eq_getD] at hb; exact getD_mem_flatten hb
     · unfold minorCompaction at h
